@@ -56,6 +56,9 @@ struct Region {
     class: usize,
     bump: usize,
     epoch: usize,
+    /// blocks below this index may still be referenced by something that outlived its run
+    /// (e.g. a process-wide cache in the code under test): they are never handed out again
+    floor: usize,
     live: usize,
     nfree: usize,
     free: [u32; MAX_FREE],
@@ -73,6 +76,7 @@ static mut REGION: Region = Region {
     class: 0,
     bump: 0,
     epoch: 0,
+    floor: 0,
     live: 0,
     nfree: 0,
     free: [0; MAX_FREE],
@@ -173,6 +177,11 @@ unsafe fn region_free(p: *mut u8) {
     lock();
     let r = &mut REGION;
     let idx = (p as usize - r.base) / r.stride;
+    if idx < r.epoch {
+        // a block of an earlier run, freed late: it stays retired
+        unlock();
+        return;
+    }
     if r.nfree < MAX_FREE {
         r.free[r.nfree] = idx as u32;
         r.nfree += 1;
@@ -401,11 +410,13 @@ pub fn run_begin(seed: u64, policy: Policy) {
     unsafe {
         lock();
         let r = &mut REGION;
-        if r.live == 0 {
-            // nothing from earlier runs is alive: relative offsets restart at zero. Blocks that an
-            // earlier run leaked (live != 0) are abandoned, never handed out again.
-            r.bump = 0;
+        if r.live != 0 {
+            // something of the previous run is still alive (leaked, or held by process-wide state of
+            // the code under test): retire everything handed out so far
+            r.floor = r.bump;
         }
+        // relative offsets restart right above the retired blocks
+        r.bump = r.floor;
         r.epoch = r.bump;
         r.live = 0;
         r.nfree = 0;
